@@ -74,6 +74,9 @@ def owners(clause):
         return ["C08"]
     if a == "err_expected" and str(b).startswith("closed_loop"):
         return ["C19"]
+    if a == "exc" and b == "unexpected_in_placement":
+        # the TASK_PLACEMENT handler raised where the specification defers / starts the task (start conditions: C02, C03)
+        return ["C05", "C02", "C03"]
     if a in ("exc", "err_expected"):
         return ["C05"]
     return ["C05"]
@@ -150,7 +153,7 @@ def make_worlds(tier):
     n_plan = 12 if tier == "quick" else 600
     for i in range(n_plan):
         kind = ("ilp", "ts_gurobi", "ts_cplex")[i % 3]
-        w = worlds.gen_world(rnd, kinds=("edf",), closed_loop=(i % 2 == 0))
+        w = worlds.gen_world(rnd, kinds=("edf",), closed_loop=(i % 2 == 0), extras=False)
         w["sched"] = {"kind": kind, "runtime": 0, "enforce": rnd.random() < 0.5, "lookahead": rnd.choice([0, 5]),
                       "retract": rnd.random() < 0.3, "rtg": rnd.random() < 0.4 and kind != "ts_cplex",
                       "goal": "max_goodput", "disc": rnd.choice([1, 2]), "plan_ahead": -1}
